@@ -23,6 +23,8 @@ def parse_split_specification(split_spec, size):
     parts = []
     rest_index = None  # remember where the 'rest' part is
     for i, part_spec in enumerate(split_spec.split('_')):
+        if part_spec[-1] in "%#" and int(part_spec[:-1]) < 0:
+            raise ValueError("negative number in specification '%s'" % split_spec)
         if part_spec[-1] == "%":
             parts.append(int(part_spec[:-1]) * size // 100)
         elif part_spec[-1] == "#":
@@ -33,8 +35,6 @@ def parse_split_specification(split_spec, size):
         else:
             raise ValueError("cannot parse specification '%s'" % split_spec)
     # check if it makes sense
-    if any(part < 0 for part in parts):
-        raise ValueError("negative part size in specification '%s'" % split_spec)
     sum_parts = sum(parts)
     if sum_parts < size:
         diff = size - sum_parts
